@@ -283,7 +283,19 @@ def dlite_circle_method(xs, ys):
         distances = np.sqrt((xs - c[0]) ** 2 + (ys - c[1]) ** 2)
         return distances - distances.mean()
 
-    center, _ = sco.leastsq(objective_f, (np.mean(xs), np.mean(ys)))
+    def jacobian_f(c):
+        """
+        Analytic derivatives of objective_f. The default forward differences use a step proportional
+        to the current value of each coordinate, so the fit stalled at a wrong centre whenever an
+        iterate passed close to zero in x or y
+        """
+        distances = np.sqrt((xs - c[0]) ** 2 + (ys - c[1]) ** 2)
+        # a vertex lying exactly on the current centre (the centroid of a straight edge) has no direction
+        distances = np.where(distances > 0, distances, np.inf)
+        derivatives = np.array([(c[0] - xs) / distances, (c[1] - ys) / distances])
+        return derivatives - derivatives.mean(axis=1)[:, np.newaxis]
+
+    center, _ = sco.leastsq(objective_f, (np.mean(xs), np.mean(ys)), Dfun=jacobian_f, col_deriv=True)
     return center
 
 
